@@ -465,7 +465,9 @@ Error BaseBuilder::register_label_node(LabelNode* node) {
   return Error::kOk;
 }
 
-static Error Builder_new_label_internal(BaseBuilder* self, uint32_t label_id) {
+// Allocates everything the builder needs to represent the label `label_id` (the id `CodeHolder` hands out next). It's done
+// before the label is created in `CodeHolder`, so a failure leaves no label (or label name) behind that nobody knows about.
+static Error Builder_prepare_label_node(BaseBuilder* self, uint32_t label_id, Out<LabelNode*> node_out) {
   ASMJIT_ASSERT(self->_label_nodes.size() < label_id + 1);
 
   uint32_t grow_by = label_id - self->_label_nodes._size + 1u;
@@ -475,8 +477,11 @@ static Error Builder_new_label_internal(BaseBuilder* self, uint32_t label_id) {
     return self->report_error(err);
   }
 
-  LabelNode* node = nullptr;
-  ASMJIT_PROPAGATE(self->new_node_t<LabelNode>(Out(node), label_id));
+  return self->new_node_t<LabelNode>(node_out, label_id);
+}
+
+static void Builder_commit_label_node(BaseBuilder* self, uint32_t label_id, LabelNode* node) {
+  uint32_t grow_by = label_id - self->_label_nodes._size + 1u;
 
   while (grow_by > 1u) {
     self->_label_nodes.append_unchecked(nullptr);
@@ -485,22 +490,23 @@ static Error Builder_new_label_internal(BaseBuilder* self, uint32_t label_id) {
 
   self->_label_nodes.append_unchecked(node);
   node->_label_id = label_id;
-
-  return Error::kOk;
 }
 
 Label BaseBuilder::new_label() {
   Label label;
 
   if (ASMJIT_LIKELY(_code)) {
-    uint32_t label_id;
-    Error err = _code->new_label_id(Out(label_id));
+    uint32_t label_id = uint32_t(_code->label_count());
+    LabelNode* node = nullptr;
 
-    if (ASMJIT_UNLIKELY(err != Error::kOk)) {
-      report_error(err);
-    }
-    else {
-      if (ASMJIT_LIKELY(Builder_new_label_internal(this, label_id) == Error::kOk)) {
+    if (ASMJIT_LIKELY(Builder_prepare_label_node(this, label_id, Out(node)) == Error::kOk)) {
+      Error err = _code->new_label_id(Out(label_id));
+
+      if (ASMJIT_UNLIKELY(err != Error::kOk)) {
+        report_error(err);
+      }
+      else {
+        Builder_commit_label_node(this, label_id, node);
         label.set_id(label_id);
       }
     }
@@ -513,14 +519,17 @@ Label BaseBuilder::new_named_label(const char* name, size_t name_size, LabelType
   Label label;
 
   if (ASMJIT_LIKELY(_code)) {
-    uint32_t label_id;
-    Error err = _code->new_named_label_id(Out(label_id), name, name_size, type, parent_id);
+    uint32_t label_id = uint32_t(_code->label_count());
+    LabelNode* node = nullptr;
 
-    if (ASMJIT_UNLIKELY(err != Error::kOk)) {
-      report_error(err);
-    }
-    else {
-      if (ASMJIT_LIKELY(Builder_new_label_internal(this, label_id) == Error::kOk)) {
+    if (ASMJIT_LIKELY(Builder_prepare_label_node(this, label_id, Out(node)) == Error::kOk)) {
+      Error err = _code->new_named_label_id(Out(label_id), name, name_size, type, parent_id);
+
+      if (ASMJIT_UNLIKELY(err != Error::kOk)) {
+        report_error(err);
+      }
+      else {
+        Builder_commit_label_node(this, label_id, node);
         label.set_id(label_id);
       }
     }
